@@ -106,6 +106,7 @@ def rname(r, prefix, k):
 
 def gen_tables(r, external=False, deep=False):
     ntab = r.randint(1, 3) if not deep else r.randint(1, 5)
+    shared_names = r.random() < 0.3       # the same column names in every table
     tables = []
     enum_used = False
     for t in range(ntab):
@@ -113,12 +114,15 @@ def gen_tables(r, external=False, deep=False):
         cols = []
         for c in range(ncol):
             kind = r.choice(['i2', 'i4', 'i8', 'f4', 'f8', 'S', 'S', 'E'])
-            col = {'name': 'c%d%dq' % (t, c), 'kind': kind}
+            col = {'name': ('c%d%dq' % (t, c)) if not shared_names else ('cs%dq' % c), 'kind': kind}
             if kind == 'E':
                 if enum_used:
                     col['kind'] = kind = 'i4'
                 else:
                     enum_used = True
+                    # write_ndarray_to_yanny(enums=...) is keyed by column name for ALL tables:
+                    # the enum column must not share its name with a column of another table
+                    col['name'] = 'ce%d%dq' % (t, c)
                     col['enum'] = ['ENUMQ7', ['EAA', 'EB', 'ECCCC'][:r.randint(2, 3)]]
             wide = r.random() < 0.06       # long lines: wide arrays, long strings
             if kind == 'S':
@@ -184,7 +188,8 @@ def generate(seed, tier='quick'):
         op = r.choice(population)
         if op in ('append_rows', 'append_mixed', 'append_pairs'):
             st = {'op': 'append', 'rows': {}, 'pairs': [], 'case': r.choice(['upper', 'lower']),
-                  'form': r.choice(['lists', 'lists', 'recarray', 'recarray', 'recarray-permuted', 'lists-extra']),
+                  'form': r.choice(['lists', 'lists', 'lists-numpy', 'recarray', 'recarray', 'recarray-permuted',
+                                    'lists-extra']),
                   'symbols': r.random() < 0.15}
             if op in ('append_rows', 'append_mixed'):
                 for ti in r.sample(range(len(tables)), r.randint(1, min(2, len(tables)))):
